@@ -165,6 +165,7 @@ type lifeRun struct {
 	// middleware protects, i.e. from inside a handler that this middleware wraps (under a watchdog)
 	inHandler bool
 	onHang    func()
+	useWitness bool
 }
 
 func (lr *lifeRun) call(id, what string, f func()) {
@@ -242,7 +243,40 @@ func (lr *lifeRun) pair(a, b string) {
 		"cfa": fmt.Sprint(na, ca), "cfb": fmt.Sprint(nb, cb)})
 }
 
+// The WITNESS: a middleware built before anything else happens in the run, which nobody touches afterwards (several schemes on one
+// host, ports, a wildcard, every list non-empty: it holds a view into whatever table the library shares between trees). At the start
+// of every segment it answers a fixed probe suite; the answers must be those it gave when the run began (modes of C12: mutate, multi).
+var witness *cors.Middleware
+var witnessFirst string
+
+func witnessSuite() []reqSpec {
+	var out []reqSpec
+	for _, o := range []string{"https://witness.example", "http://witness.example:8080", "https://a.witness.example:9", "wss://witness.example", "https://other.example"} {
+		out = append(out, reqSpec{Method: "GET", H: http.Header{hOrigin: {o}}},
+			reqSpec{Method: "OPTIONS", H: http.Header{hOrigin: {o}, hACRM: {"PUT"}, hACRH: {"x-w"}}},
+			reqSpec{Method: "OPTIONS", H: http.Header{hOrigin: {o}, hACRM: {"QUERY"}}})
+	}
+	return out
+}
+
+func (lr *lifeRun) witnessCheck() {
+	if !lr.useWitness {
+		return
+	}
+	defer func() { recover() }()
+	if witness == nil {
+		w, err := cors.NewMiddleware(cors.Config{Origins: []string{"https://witness.example", "http://witness.example:8080", "wss://witness.example", "https://*.witness.example:*"},
+			Methods: []string{"PUT"}, RequestHeaders: []string{"X-W"}, ResponseHeaders: []string{"X-We"}, MaxAgeInSeconds: 30})
+		if err != nil {
+			fatal("witness: %v", err)
+		}
+		witness, witnessFirst = w, fingerprint(w, witnessSuite())
+	}
+	lr.t.emit(map[string]any{"ev": "Witness", "fp": fingerprint(witness, witnessSuite()), "first": witnessFirst})
+}
+
 func (lr *lifeRun) reset(suite []reqSpec) {
+	lr.witnessCheck()
 	clear(earlyWrapped)
 	lr.suite = suite
 	lr.mws = map[string]*cors.Middleware{}
@@ -257,6 +291,7 @@ func (lr *lifeRun) resetKeep(suite []reqSpec) {
 		lr.reset(suite)
 		return
 	}
+	lr.witnessCheck()
 	clear(earlyWrapped)
 	lr.mws = map[string]*cors.Middleware{}
 	lr.t.emit(map[string]any{"ev": "Reset", "keep": true})
@@ -735,6 +770,7 @@ func cmdLife(args []string) {
 	cfgA, cfgB := plainConfig(A), plainConfig(B)
 	abSuite := smallSuite([]Sem{A, B})
 	invalid := invalidConfigs()
+	lr.useWitness = *mode == "mutate" || *mode == "multi"
 	switch *mode {
 	case "hist":
 		idx := 0
@@ -1009,14 +1045,15 @@ func cmdLife(args []string) {
 			cfg *cors.Config
 			dbg bool
 		}
-		priors := []prior{{"nil", nil, false}, {"A", &cfgA, false}, {"A", &cfgA, true}, {"B", &cfgB, false}, {"B", &cfgB, true}}
+		// (a CONFIGURED prior comes first: damage to shared storage is often done only once per process - by the first rejected
+		// configuration that triggers it - and shows on middlewares that were built before it)
+		priors := []prior{{"A", &cfgA, false}, {"nil", nil, false}, {"A", &cfgA, true}, {"B", &cfgB, false}, {"B", &cfgB, true}}
 		var rsems []Sem
 		for i := 0; i < *n; i++ {
+			// (not validated here: nothing is built before the first prior has been observed; a random configuration that turns
+			// out to be unacceptable is skipped when its turn comes)
 			s := randSem(rng)
 			c := s.spell(rng)
-			if _, err := tryNew(*c); err != nil {
-				continue
-			}
 			rsems = append(rsems, s)
 			priors = append(priors, prior{fmt.Sprintf("R%d", i), c, rng.Intn(2) == 0})
 		}
@@ -1025,6 +1062,11 @@ func cmdLife(args []string) {
 			suite = suite[:900]
 		}
 		for _, p := range priors {
+			if p.cfg != nil && strings.HasPrefix(p.id, "R") {
+				if _, err := tryNew(*p.cfg); err != nil {
+					continue
+				}
+			}
 			lr.reset(suite)
 			ncases++
 			if p.cfg == nil {
